@@ -641,7 +641,9 @@ func (g *filterGen) leaf(d0 *draws, kind int, countSensitiveOK bool) *btpb.RowFi
 		if e < 0 {
 			e = 0
 		}
-		if s > e && !inv {
+		if s > e && !inv && d.n(5) != 0 {
+			// (one time in five an inverted range in whole milliseconds stays as drawn: a request
+			// the server may reject or answer with nothing, but must survive)
 			s, e = e, s
 		}
 		if d.n(4) == 0 {
